@@ -61,6 +61,9 @@ class UserAddNode(ActionGroup):
         """
         super().__init__(tracks, actions=[])
         self.tracks: SolutionTracks  # Narrow type from base class
+        # the track and lineage ids are filled in below: work on a copy, so that a
+        # caller who re-uses its dict does not pass them on to the next node
+        attributes = dict(attributes)
 
         # Get keys from tracks features
         time_key = tracks.features.time_key
